@@ -595,6 +595,9 @@ func collectThenSort(rg *ssa.Range) bool {
 			}
 		}
 	}
+	if ok, done := collectThenSortCell(body, header); done {
+		return ok
+	}
 	var carried *ssa.Phi
 	for b := range body {
 		for _, in := range b.Instrs {
@@ -720,4 +723,130 @@ func switchConsts(c *core.Ctx, fn *ssa.Function) map[string]bool {
 		}
 	}
 	return out
+}
+
+// collectThenSortCell handles the form in which the collected slice is a variable cell (it is captured by the comparison closure of
+// sort.Slice): the loop body only stores append(load(cell), k) back into the cell, and a sort call on the cell's value dominates every
+// other read of the cell after the loop. done=false when the loop does not have this form at all.
+func collectThenSortCell(body map[*ssa.BasicBlock]bool, header *ssa.BasicBlock) (ok, done bool) {
+	var cell *ssa.Alloc
+	for b := range body {
+		for _, in := range b.Instrs {
+			switch x := in.(type) {
+			case *ssa.Store:
+				root := x.Addr
+				for {
+					if ia, isIA := root.(*ssa.IndexAddr); isIA {
+						root = ia.X
+						continue
+					}
+					break
+				}
+				al, isAl := root.(*ssa.Alloc)
+				if !isAl {
+					return false, false
+				}
+				if _, isSlice := al.Type().(*types.Pointer).Elem().Underlying().(*types.Slice); isSlice && x.Addr == ssa.Value(al) {
+					if cell != nil && cell != al {
+						return false, true
+					}
+					cell = al
+					// the stored value is an append on the cell's own value
+					ap, isCall := x.Val.(*ssa.Call)
+					if !isCall {
+						return false, true
+					}
+					bi, isB := ap.Call.Value.(*ssa.Builtin)
+					if !isB || bi.Name() != "append" {
+						return false, true
+					}
+					ld, isLd := ap.Call.Args[0].(*ssa.UnOp)
+					if !isLd || ld.X != ssa.Value(al) {
+						return false, true
+					}
+				}
+			case *ssa.MapUpdate, *ssa.Send, *ssa.Go, *ssa.Defer, *ssa.Return, *ssa.Panic:
+				return false, false
+			case ssa.CallInstruction:
+				if bi, isB := x.Common().Value.(*ssa.Builtin); isB && (bi.Name() == "append" || bi.Name() == "len") {
+					continue
+				}
+				return false, false
+			}
+		}
+	}
+	if cell == nil || cell.Referrers() == nil {
+		return false, false
+	}
+	for b := range body {
+		if b == header {
+			continue
+		}
+		for _, s := range b.Succs {
+			if !body[s] {
+				return false, true
+			}
+		}
+	}
+	var sortCall ssa.CallInstruction
+	var reads []ssa.Instruction
+	for _, r := range *cell.Referrers() {
+		if body[r.Block()] {
+			continue
+		}
+		switch x := r.(type) {
+		case *ssa.UnOp:
+			isArg := false
+			if x.Referrers() != nil {
+				for _, u := range *x.Referrers() {
+					var v ssa.Value = x
+					_ = v
+					if ci, isCall := u.(ssa.CallInstruction); isCall {
+						if sc := ci.Common().StaticCallee(); sc != nil && sc.Pkg != nil && sc.Pkg.Pkg.Path() == "sort" {
+							sortCall, isArg = ci, true
+						}
+					}
+					if mi, isMI := u.(*ssa.MakeInterface); isMI && mi.Referrers() != nil {
+						for _, w := range *mi.Referrers() {
+							if ci, isCall := w.(ssa.CallInstruction); isCall {
+								if sc := ci.Common().StaticCallee(); sc != nil && sc.Pkg != nil && sc.Pkg.Pkg.Path() == "sort" {
+									sortCall, isArg = ci, true
+								}
+							}
+						}
+					}
+				}
+			}
+			if !isArg {
+				reads = append(reads, x)
+			}
+		case *ssa.MakeClosure:
+			// the comparison closure of sort.Slice reads the cell while sorting: fine if it is handed to the sort call only
+			if x.Referrers() != nil {
+				for _, u := range *x.Referrers() {
+					if ci, isCall := u.(ssa.CallInstruction); isCall {
+						if sc := ci.Common().StaticCallee(); sc != nil && sc.Pkg != nil && sc.Pkg.Pkg.Path() == "sort" {
+							continue
+						}
+					}
+					if _, isDbg := u.(*ssa.DebugRef); isDbg {
+						continue
+					}
+					reads = append(reads, x)
+				}
+			}
+		case *ssa.Store, *ssa.DebugRef:
+		default:
+			reads = append(reads, r)
+		}
+	}
+	if sortCall == nil {
+		return false, true
+	}
+	for _, rd := range reads {
+		if !core.Dominates(sortCall, rd) {
+			return false, true
+		}
+	}
+	return true, true
 }
